@@ -62,6 +62,8 @@ func parseHdr(raw []byte) hdr {
 type ScriptEnv struct {
 	*Env
 	st *scriptState
+	// Filter2 may replace replies while no script is active (handshakes).
+	Filter2 func(req, reply []byte) []byte
 }
 
 func NewScriptEnv(cfg refbmc.Config, mode memtr.Delivery) *ScriptEnv {
@@ -76,6 +78,9 @@ func NewScriptEnv(cfg refbmc.Config, mode memtr.Delivery) *ScriptEnv {
 	se.Filter = func(n int, req, reply []byte) ([]byte, error) {
 		st := se.st
 		if st == nil {
+			if se.Filter2 != nil {
+				return se.Filter2(req, reply), nil
+			}
 			return reply, nil
 		}
 		return se.transform(req, reply)
